@@ -481,6 +481,15 @@ Definition cal_ok (m : mode) (rv : bool) (a b : item) : bool :=
 (* events of a collector history: key k sampled with increment inc; the sorted view is read *)
 Inductive ev := ESample (k : nat) (inc : Z) | ERead.
 
+(* events of a table history (TableAggregator): a cell sampled, the sorted views read (a rendered
+   frame), and Trim with the predicates the commands use *)
+Inductive tev :=
+| TSample (c r : nat) (inc : Z)      (* SampleItem(col c, row r, inc) *)
+| TRead                              (* OrderedRows + OrderedColumns *)
+| TTrimKeep (n : nat)                (* cmd/spark.go: keep the last n columns in the column sorter's order *)
+| TTrimVal (lo hi : Z)               (* Trim(lo <= val <= hi) *)
+| TTrimCols (cs : list nat).         (* Trim(col in cs) *)
+
 Inductive cin :=
 | IAx (md : bytes) (its : list item)                          (* every ordered pair, fresh sorter per pair *)
 | ISeq (md : bytes) (its : list item) (ps : list (nat * nat)) (* a sequence of comparisons on one sorter *)
@@ -488,6 +497,9 @@ Inductive cin :=
 | ITop (md : bytes) (its : list item) (limit reps : nat)
   (* a large key set handed to an accessor with a row limit (MatchCounter.ItemsSortedBy(limit, ..)),
      from [reps] arrival orders: the first [limit] rows of the full sort, every time *)
+| ITable (md mdc : bytes) (byrows : bool) (rkeys ckeys : list key) (h : list tev)
+  (* a TableAggregator fed a history of samples, reads and trims; the final OrderedRows (byrows)
+     or OrderedColumns with sorter md is observed; mdc is the column sorter TTrimKeep uses *)
 | ICollect (md : bytes) (bykey : bool) (keys : list key) (h : list ev).
   (* a collector fed by a history of samples with intermediate reads (rendered frames); the final
      read is observed. bykey = false: items (key, total) through a NameValueSorter (counters,
@@ -498,6 +510,7 @@ Inductive cout :=
 | OAx (m : list (list bool))
 | OSeq (r : list bool)
 | OSort (outs : list (list nat))         (* sorted arrangements as indices into the item list *)
+| OTable (present order : list nat)      (* rows (columns) left in the table, and their sorted order, as key indices *)
 | OPanic.                                (* the implementation panicked or did not finish (the model never does) *)
 
 Definition dummy_key := mkkey [] None FmtErr [].
@@ -537,7 +550,7 @@ Definition model0 (c : cin) : cout :=
               OSort (repeat (map fst (firstn limit sorted)) reps)
           end
       end
-  | ICollect _ _ _ _ => OPanic   (* normalised away, see [norm] *)
+  | ICollect _ _ _ _ | ITable _ _ _ _ _ _ => OPanic   (* normalised away, see [norm] *)
   end.
 
 Definition list_nat_eqb := list_eqb Nat.eqb.
@@ -561,6 +574,7 @@ Definition cout_eqb (a b : cout) : bool :=
   | OAx x, OAx y => mat_eq_off 0 x y
   | OSeq x, OSeq y => list_eqb Bool.eqb x y
   | OSort x, OSort y => list_eqb list_nat_eqb x y
+  | OTable p x, OTable q y => list_nat_eqb p q && list_nat_eqb x y
   | _, _ => false
   end.
 
@@ -695,7 +709,7 @@ Definition C13_check0 (c : cin) (o : cout) : bool :=
 (* the guard of C13_check_sound: the key set of a case lies in a state-free domain *)
 Definition in_domain0 (c : cin) : bool :=
   match c with
-  | ICollect _ _ _ _ => false
+  | ICollect _ _ _ _ | ITable _ _ _ _ _ _ => false
   | IAx md its | ISeq md its _ | ISort md its _ | ITop md its _ _ =>
       match parse_sort md with
       | None => true
@@ -706,7 +720,7 @@ Definition in_domain0 (c : cin) : bool :=
 (* well-formed cases: distinct key names, indices in range, arrangements are arrangements *)
 Definition case_wf0 (c : cin) : bool :=
   match c with
-  | ICollect _ _ _ _ => false
+  | ICollect _ _ _ _ | ITable _ _ _ _ _ _ => false
   | ITop _ its _ _ => key_names_distinct its
   | IAx _ its => key_names_distinct its
   | ISeq _ its ps =>
@@ -740,15 +754,116 @@ Definition final_items (bykey : bool) (keys : list key) (h : list ev) : list ite
          if bykey then (numkey t, 0%Z) else (snd ik, t))
       (combine (seq 0 (List.length keys)) keys).
 
+(* ---------------------------------------------------------------- tables over histories with Trim *)
+(* The cells of a TableAggregator: (column, row) -> value, one entry per existing cell. Everything
+   the sorted views show is a function of the cells alone (row sum, column total, which rows and
+   columns exist) - table.go caches sums and totals, and Trim (as repaired, C07) recomputes them. *)
+Definition cells := list (nat * nat * Z).
+Fixpoint cget (cs : cells) (c r : nat) : option Z :=
+  match cs with
+  | [] => None
+  | (c', r', v) :: t => if Nat.eqb c c' && Nat.eqb r r' then Some v else cget t c r
+  end.
+Fixpoint cadd (cs : cells) (c r : nat) (inc : Z) : cells :=
+  match cs with
+  | [] => [(c, r, inc)]
+  | (c', r', v) :: t =>
+      if Nat.eqb c c' && Nat.eqb r r' then (c', r', (v + inc)%Z) :: t else (c', r', v) :: cadd t c r inc
+  end.
+Definition ctrim (p : nat -> nat -> Z -> bool) (cs : cells) : cells :=
+  filter (fun e : nat * nat * Z => let '(c, r, v) := e in negb (p c r v)) cs.
+
+(* a line (row or column) of the grid: present iff it has a cell; its total *)
+Definition line (get : nat -> option Z) (n : nat) : option Z :=
+  let vs := map get (seq 0 n) in
+  if existsb (fun v : option Z => match v with Some _ => true | None => false end) vs
+  then Some (fold_right (fun (v : option Z) acc => (match v with Some x => x | None => 0 end + acc)%Z) 0%Z vs)
+  else None.
+Fixpoint present_lines (f : nat -> option Z) (idx : list nat) : list (nat * Z) :=
+  match idx with
+  | [] => []
+  | i :: r => match f i with Some t => (i, t) :: present_lines f r | None => present_lines f r end
+  end.
+Definition col_view (cs : cells) (ncols nrows : nat) : list (nat * Z) :=
+  present_lines (fun c => line (fun r => cget cs c r) nrows) (seq 0 ncols).
+Definition row_view (cs : cells) (ncols nrows : nat) : list (nat * Z) :=
+  present_lines (fun r => line (fun c => cget cs c r) ncols) (seq 0 nrows).
+Definition key_at (ks : list key) (i : nat) : key := nth i ks dummy_key.
+
+(* the columns in the column sorter's order (OrderedColumns), as indices *)
+Definition ordered_cols (mdc : bytes) (ckeys : list key) (cv : list (nat * Z)) : list nat :=
+  let pairs := map (fun ct : nat * Z => (fst ct, (key_at ckeys (fst ct), snd ct))) cv in
+  match parse_sort mdc with
+  | Some mr => map fst (fst (sisort (fun s (a b : nat * item) => build_cmp mr s (snd a) (snd b)) s_init pairs))
+  | None => map fst pairs
+  end.
+
+Definition table_step (mdc : bytes) (ckeys : list key) (ncols nrows : nat) (cs : cells) (e : tev) : cells :=
+  match e with
+  | TSample c r inc => cadd cs c r inc
+  | TRead => cs
+  | TTrimKeep n =>
+      let order := ordered_cols mdc ckeys (col_view cs ncols nrows) in
+      if (n <? List.length order)%nat then
+        let keep := skipn (List.length order - n) order in
+        ctrim (fun c _ _ => negb (existsb (Nat.eqb c) keep)) cs
+      else cs
+  | TTrimVal lo hi => ctrim (fun _ _ v => (lo <=? v)%Z && (v <=? hi)%Z) cs
+  | TTrimCols l => ctrim (fun c _ _ => existsb (Nat.eqb c) l) cs
+  end.
+Definition final_cells (mdc : bytes) (ckeys : list key) (ncols nrows : nat) (h : list tev) : cells :=
+  fold_left (table_step mdc ckeys ncols nrows) h [].
+
+(* the view that is observed at the end: (key index, total) of the rows (columns) that exist *)
+Definition table_view (mdc : bytes) (byrows : bool) (rkeys ckeys : list key) (h : list tev) : list (nat * Z) :=
+  let ncols := List.length ckeys in
+  let nrows := List.length rkeys in
+  let cs := final_cells mdc ckeys ncols nrows h in
+  if byrows then row_view cs ncols nrows else col_view cs ncols nrows.
+Definition view_items (byrows : bool) (rkeys ckeys : list key) (v : list (nat * Z)) : list item :=
+  map (fun it : nat * Z => (key_at (if byrows then rkeys else ckeys) (fst it), snd it)) v.
+
 (* a collector case is the sort of its final items from one arrangement *)
 Definition norm (c : cin) : cin :=
   match c with
   | ICollect md bk keys h => ISort md (final_items bk keys h) [seq 0 (List.length keys)]
+  | ITable md mdc byrows rkeys ckeys h =>
+      let v := table_view mdc byrows rkeys ckeys h in
+      ISort md (view_items byrows rkeys ckeys v) [seq 0 (List.length v)]
   | _ => c
   end.
 
-Definition model (c : cin) : cout := model0 (norm c).
-Definition C13_check (c : cin) (o : cout) : bool := C13_check0 (norm c) o.
+(* a table answers with the key indices of what is left and their order (positions of the sorted
+   view translated back to key indices) *)
+Definition model (c : cin) : cout :=
+  match c with
+  | ITable md mdc byrows rkeys ckeys h =>
+      let idx := map fst (table_view mdc byrows rkeys ckeys h) in
+      match model0 (norm c) with
+      | OSort [o] => OTable idx (map (fun p => nth p idx 0%nat) o)
+      | r => r
+      end
+  | _ => model0 (norm c)
+  end.
+Fixpoint pos_of (x : nat) (l : list nat) : nat :=
+  match l with
+  | [] => O
+  | y :: r => if Nat.eqb x y then O else S (pos_of x r)
+  end.
+Definition C13_check (c : cin) (o : cout) : bool :=
+  match c with
+  | ITable md mdc byrows rkeys ckeys h =>
+      let idx := map fst (table_view mdc byrows rkeys ckeys h) in
+      match o with
+      | OTable p ord =>
+          (* what is left is what the final cells say, and its order is the documented one *)
+          list_nat_eqb p idx && forallb (fun x => existsb (Nat.eqb x) idx) ord &&
+          C13_check0 (norm c) (OSort [map (fun x => pos_of x idx) ord])
+      | OErr => C13_check0 (norm c) OErr
+      | _ => false
+      end
+  | _ => C13_check0 (norm c) o
+  end.
 Definition in_domain (c : cin) : bool := in_domain0 (norm c).
 (* every key of a collector history is sampled at least once (only sampled keys exist in the map) *)
 Definition case_wf (c : cin) : bool :=
